@@ -564,15 +564,46 @@ class PFold(Fold):
                 for x in ([k for k in r.kids if k.name not in NOISE] if r.name in ("ex-list", "list") else [r]):
                     items.append(x)
             desc["var"] = var
-            rng_ops = [k for k in P.walk(head) if k.name == "range" and len([x for x in k.kids if x.name not in NOISE]) == 2]
-            desc["reversed"] = "REVERSED" in head.flags or any(k.name in ("reverse", "ex-reverse") for k in P.walk(head))
-            if rng_ops:
-                ks_ = [x for x in rng_ops[0].kids if x.name not in NOISE]
-                desc["items"] = [self.ev(ks_[0], env), self.ev(ks_[1], env)]
+            # the iterated list as segments: ("range", lo, hi, reversed) | ("item", value); `reverse` applies to the list it wraps only
+            def seg_of(x, rev):
+                x0 = x
+                while x0.name in ("null", "ex-list", "list", "ex-reverse", "flop", "flip") and len([k for k in x0.kids if k.name not in NOISE]) == 1:
+                    x0 = [k for k in x0.kids if k.name not in NOISE][0]
+                if x0.name == "range":
+                    ks_ = [k for k in x0.kids if k.name not in NOISE]
+                    if len(ks_) == 2:
+                        return [("range", self.ev(ks_[0], env), self.ev(ks_[1], env), rev)]
+                if x0.name == "reverse":
+                    inner_ = []
+                    for k in [k for k in x0.kids if k.name not in NOISE]:
+                        inner_ += seg_of(k, not rev)
+                    return inner_[::-1]
+                if x0.name in ("ex-list", "list"):
+                    inner_ = []
+                    for k in [k for k in x0.kids if k.name not in NOISE]:
+                        inner_ += seg_of(k, rev)
+                    return inner_[::-1] if rev else inner_
+                return [("item", self.ev(x, env), P.strip(x).name in ("padav", "rv2av", "ex-padav"), rev)]
+            segs = []
+            for x in items:
+                segs += seg_of(x, False)
+            if "S" in head.flags.split("/")[0] and len(segs) == 2 and all(sg[0] == "item" and not sg[2] for sg in segs):
+                segs = [("range", segs[0][1], segs[1][1], False)]         # foreach (a..b): the optimiser leaves the two bounds, OPf_STACKED set
+            if "REVERSED" in head.flags:
+                segs = [(sg[0],) + tuple(sg[1:-1]) + (not sg[-1],) for sg in segs][::-1]
+            desc["segments"] = segs
+            if len(segs) == 1 and segs[0][0] == "range":
+                desc["items"] = [segs[0][1], segs[0][2]]
                 desc["range"] = True
+                desc["reversed"] = segs[0][3]
+            elif any(sg[0] == "range" for sg in segs):
+                desc["items"] = None                      # several pieces: clients must read desc["segments"]
+                desc["range"] = False
+                desc["reversed"] = False
             else:
-                desc["items"] = [self.ev(x, env) for x in items]
-                desc["range"] = len(items) == 2 and not any(P.strip(x).name in ("padav", "rv2av", "ex-padav") for x in items)
+                desc["items"] = [sg[1] for sg in segs]
+                desc["range"] = False
+                desc["reversed"] = any(sg[-1] for sg in segs)
             carried.add(var)
             cond = None
         else:
